@@ -335,6 +335,8 @@ def check_request(rec: hw.CallRec, cap, own_transport, V):
         part = file_parts[key]
         uid = [u for u, o in objs.items() if o is f["obj"]][0]
         data = uploads_spec[uid]["data"].encode("latin-1")
+        if getattr(rec, "upload_data_now", None) and uid in rec.upload_data_now:
+            data = rec.upload_data_now[uid]          # (the caller gave this Upload object a new stream before this call)
         if part["filename"] != wire_filename(f["filename"]) or part["content_type"] != f["content_type"]:
             V("multipart-file-meta", "%s: file part %r carries (%r, %r), the Upload has (%r, %r)" % (
                 tag, key, part["filename"], part["content_type"], f["filename"], f["content_type"]))
@@ -520,6 +522,9 @@ def run_case(case, ch: Choices) -> RunResult:
     nmulti = sum(1 for r in recs if r.spec["multipart"])
     nfault = sum(1 for r in recs if r.spec.get("fault"))
     res.bump("calls", ncalls)
+    for k_ in ("upload_objects_sent_again", "model_objects_reused"):
+        if info.get(k_):
+            res.bump("caller." + k_, info[k_])
     ncancel = sum(1 for r in recs if r.outcome and r.outcome[0] == "cancelled")
     if ncancel:
         res.bump("fault.call_cancelled_by_its_caller", ncancel)
